@@ -271,7 +271,7 @@ func verifRes(c constant, err error) string {
 //	eq <c1> <c2>            c1.equals(c2)
 //	zero <c>                c.zero()
 //	same <c1> <c2>          toSameConstImpl(c1, c2)
-//	shifterr <op> <c>       shiftConstError(op, c)
+//	shifterr <op> <c1> <c>  shiftConstError(op, c1, c)
 //	lit <int|float|imaginary|rune> <text>   parseBasicLiteral
 //	str <c>                 c.String()
 //
@@ -327,7 +327,7 @@ func VerifConst(fn string, args ...string) (res string) {
 		d1, d2 := toSameConstImpl(cs(0), cs(1))
 		return "ok:" + verifConstDescribe(d1) + " " + verifConstDescribe(d2)
 	case "shifterr":
-		if err := shiftConstError(op(0), cs(1)); err != nil {
+		if err := shiftConstError(op(0), cs(1), cs(2)); err != nil {
 			return "err:" + verifErrClass(err)
 		}
 		return "ok:"
